@@ -367,3 +367,332 @@ Proof.
   destruct (sem_of_block_wf _ _ _ HT Hsc H) as [_ [E1 [E2 _]]]. destruct (sem_of_block_wf _ _ _ HT' Hsc' H') as [_ [E1' [E2' _]]].
   rewrite <- E1, <- E1', E2, E2'. eapply minimum_trials_monotone; eauto.
 Qed.
+
+(** ** Repeat(b, []) and Merge([b]) denote what b denotes *)
+
+(** *** dictionaries and sets *)
+Lemma dict_set_fresh : forall {V} k (v : V) d, ~ In k (map fst d) -> dict_set Nat.eqb k v d = d ++ [(k, v)].
+Proof.
+  intros V k v d. induction d as [|[k' v'] d IH]; intro H; cbn; [reflexivity|].
+  destruct (Nat.eqb_spec k k') as [->|Hne]; [exfalso; apply H; left; reflexivity|].
+  rewrite IH; [reflexivity|]. intro Hin. apply H. right. exact Hin.
+Qed.
+
+Lemma dict_update_fresh : forall {V} (e d : list (nat * V)),
+  NoDup (map fst d ++ map fst e) -> dict_update Nat.eqb d e = d ++ e.
+Proof.
+  intros V e. induction e as [|[k v] e IH]; intros d H; unfold dict_update in *; cbn [fold_left].
+  - rewrite app_nil_r. reflexivity.
+  - cbn [fst snd]. rewrite dict_set_fresh.
+    + rewrite IH; [rewrite <- app_assoc; reflexivity|]. rewrite map_app. cbn. rewrite <- app_assoc. exact H.
+    + cbn in H. apply NoDup_remove_2 in H. intro Hin. apply H. apply in_or_app. left. exact Hin.
+Qed.
+
+Lemma dict_set_keys : forall {V} k (v : V) d, NoDup (map fst d) -> NoDup (map fst (dict_set Nat.eqb k v d)).
+Proof.
+  intros V k v d. induction d as [|[k' v'] d IH]; intro H; cbn.
+  - constructor; [intros []|constructor].
+  - destruct (Nat.eqb_spec k k') as [->|Hne]; [exact H|]. cbn. inversion H; subst. constructor; [|apply IH; assumption].
+    intro Hin. apply H2. clear -Hin Hne. induction d as [|[k2 v2] d IH]; cbn in *.
+    + destruct Hin as [E|[]]. congruence.
+    + destruct (Nat.eqb_spec k k2); cbn in Hin; [exact Hin|]. destruct Hin as [E|Hin]; [left; exact E|right; apply IH; exact Hin].
+Qed.
+
+Lemma dict_update_keys : forall {V} (e d : list (nat * V)), NoDup (map fst d) -> NoDup (map fst (dict_update Nat.eqb d e)).
+Proof.
+  intros V e. induction e as [|[k v] e IH]; intros d H; unfold dict_update in *; cbn [fold_left]; [exact H|].
+  apply IH. apply dict_set_keys. exact H.
+Qed.
+
+Lemma mem_false : forall f l, ~ In f l -> DocSem.mem f l = false.
+Proof.
+  intros f l H. unfold DocSem.mem. destruct (existsb _ _) eqn:E; [|reflexivity]. apply existsb_exists in E.
+  destruct E as [x [Hx E]]. apply Nat.eqb_eq in E. subst. contradiction.
+Qed.
+
+Lemma add_new_fresh : forall fs acc, NoDup (acc ++ fs) -> DocSem.add_new acc fs = acc ++ fs.
+Proof.
+  induction fs as [|f fs IH]; intros acc H; unfold DocSem.add_new in *; cbn [fold_left]; [rewrite app_nil_r; reflexivity|].
+  rewrite mem_false.
+  - rewrite IH; [rewrite <- app_assoc; reflexivity|]. rewrite <- app_assoc. exact H.
+  - apply NoDup_remove_2 in H. intro Hin. apply H. apply in_or_app. left. exact Hin.
+Qed.
+
+(** *** what [_finish] establishes *)
+Definition geom (c : dcross) : nat * nat * nat := (x_P c, x_S c, x_su c).
+
+Definition ep_check (al : alignment) (cs : list dcross) : bool :=
+  alignment_eqb al EqualPreamble &&
+  negb (match cs with [] => true | c0 :: _ => forallb (fun c => x_P c =? x_P c0) cs end).
+
+Definition first_P (cs : list dcross) : nat := match cs with c :: _ => x_P c * x_su c | [] => 0 end.
+
+Lemma finish_cw_geom : forall mode T c c', finish_cw mode T c = Ok c' -> geom c' = geom c.
+Proof.
+  intros mode T c c' H. unfold finish_cw in H. destruct (x_S c =? 0); [inversion H; reflexivity|].
+  destruct (_ =? x_cw c); [inversion H; reflexivity|]. destruct mode; inversion H; reflexivity.
+Qed.
+
+Lemma mapM_finish_cw_geom : forall mode T cs cs', mapM (finish_cw mode T) cs = Ok cs' -> map geom cs' = map geom cs.
+Proof.
+  intros mode T cs cs' H. apply mapM_ok in H. induction H; cbn; [reflexivity|]. f_equal; [eapply finish_cw_geom; eauto|assumption].
+Qed.
+
+Lemma fold_su_geom : forall cs cs' m, map geom cs = map geom cs' ->
+  fold_left (fun m c => if m mod x_su c =? 0 then m else (m / x_su c + 1) * x_su c) cs m =
+  fold_left (fun m c => if m mod x_su c =? 0 then m else (m / x_su c + 1) * x_su c) cs' m.
+Proof.
+  induction cs as [|c cs IH]; intros [|c' cs'] m H; cbn [map] in H; try discriminate; [reflexivity|].
+  assert (Hc : geom c = geom c') by congruence. assert (Hr : map geom cs = map geom cs') by congruence. cbn [fold_left]. assert (E : x_su c = x_su c') by (unfold geom in Hc; congruence).
+  rewrite E. apply IH. assumption.
+Qed.
+
+Lemma map_geom_f : forall (f : nat * nat * nat -> nat) cs cs', map geom cs = map geom cs' ->
+  map (fun c => f (geom c)) cs = map (fun c => f (geom c)) cs'.
+Proof. intros f cs cs' H. rewrite <- !(map_map geom f). rewrite H. reflexivity. Qed.
+
+Lemma finish_T_geom : forall al cs cs' m, map geom cs = map geom cs' -> finish_T al cs m = finish_T al cs' m.
+Proof.
+  intros al cs cs' m H. unfold finish_T. rewrite (fold_su_geom cs cs' m H).
+  assert (E1 : map x_P cs = map x_P cs') by exact (map_geom_f (fun t => fst (fst t)) cs cs' H).
+  assert (E2 : map (fun c => x_S c * x_su c) cs = map (fun c => x_S c * x_su c) cs')
+    by exact (map_geom_f (fun t => snd (fst t) * snd t) cs cs' H).
+  assert (E3 : map (fun c => (x_P c + x_S c) * x_su c) cs = map (fun c => (x_P c + x_S c) * x_su c) cs')
+    by exact (map_geom_f (fun t => (fst (fst t) + snd (fst t)) * snd t) cs cs' H).
+  rewrite E1, E2, E3. reflexivity.
+Qed.
+
+Lemma first_P_geom : forall cs cs', map geom cs = map geom cs' -> first_P cs = first_P cs'.
+Proof.
+  intros [|c cs] [|c' cs'] H; cbn [map] in H; try discriminate; [reflexivity|]. assert (Hc : geom c = geom c') by congruence. assert (Hr : map geom cs = map geom cs') by congruence. unfold geom in Hc.
+  cbn. congruence.
+Qed.
+
+Lemma forallb_geom : forall (f : nat * nat * nat -> bool) cs cs', map geom cs = map geom cs' ->
+  forallb (fun c => f (geom c)) cs = forallb (fun c => f (geom c)) cs'.
+Proof.
+  induction cs as [|c cs IH]; intros [|c' cs'] H; cbn [map] in H; try discriminate; [reflexivity|].
+  assert (Hc : geom c = geom c') by congruence. assert (Hr : map geom cs = map geom cs') by congruence. cbn [forallb]. rewrite Hc. f_equal. apply IH. assumption.
+Qed.
+
+Lemma ep_check_geom : forall al cs cs', map geom cs = map geom cs' -> ep_check al cs = ep_check al cs'.
+Proof.
+  intros al cs cs' H. unfold ep_check. f_equal. f_equal.
+  destruct cs as [|c0 cs], cs' as [|c0' cs']; cbn [map] in H; try discriminate; [reflexivity|].
+  assert (E0 : x_P c0 = x_P c0') by (assert (Hc : geom c0 = geom c0') by congruence; unfold geom in Hc; congruence).
+  rewrite E0.
+  exact (forallb_geom (fun t => fst (fst t) =? x_P c0') (c0 :: cs) (c0' :: cs') H).
+Qed.
+
+Record fin (bd : blockdoc) : Prop := {
+  fin_T : b_T bd = finish_T (b_alignment bd) (b_crossings bd) (b_min_trials bd);
+  fin_P : b_P bd = first_P (b_crossings bd);
+  fin_ep : ep_check (b_alignment bd) (b_crossings bd) = false;
+  fin_keys : NoDup (map fst (b_sustain bd));
+  fin_top : Forall (fun csc : pcons * scope => top_scope (snd csc)) (b_constraints bd)
+}.
+
+Lemma finish_fin : forall bd mode bd', finish bd mode = Ok bd' ->
+  b_T bd' = finish_T (b_alignment bd') (b_crossings bd') (b_min_trials bd') /\
+  b_P bd' = first_P (b_crossings bd') /\
+  ep_check (b_alignment bd') (b_crossings bd') = false /\
+  b_sustain bd' = b_sustain bd /\ b_design bd' = b_design bd /\ b_rcc bd' = b_rcc bd /\
+  b_alignment bd' = b_alignment bd /\ b_min_trials bd' = b_min_trials bd.
+Proof.
+  intros bd mode bd' H. unfold finish in H. cbv zeta in H.
+  fold (ep_check (b_alignment bd) (b_crossings bd)) in H. fold (first_P (b_crossings bd)) in H.
+  destruct (ep_check _ _) eqn:E; [discriminate|]. inv_bind H as cs' Hcs H.
+  assert (Hg : map geom cs' = map geom (b_crossings bd)).
+  { destruct mode; [eapply mapM_finish_cw_geom; eauto|inversion Hcs; reflexivity|eapply mapM_finish_cw_geom; eauto]. }
+  inversion H; subst; cbn [b_design b_crossings b_T b_P b_constraints b_min_trials b_alignment b_sustain b_rcc].
+  rewrite (finish_T_geom _ _ _ _ Hg), (first_P_geom _ _ Hg), (ep_check_geom _ _ _ Hg).
+  repeat split; try reflexivity. exact E.
+Qed.
+
+Lemma doc_cross_fin : forall p d crs cs rcc mode al bd, doc_cross p d crs cs rcc mode al = Ok bd -> fin bd.
+Proof.
+  intros p d crs cs rcc mode al bd H. unfold doc_cross in H.
+  inv_bind H as kinds Hk H. inv_bind H as xs Hxs H. inv_bind H as bd0 Hf H.
+  apply finish_fin in Hf. cbn in Hf. destruct Hf as [H1 [H2 [H3 [H4 _]]]].
+  inversion H; subst; cbn. constructor; cbn; try assumption.
+  - rewrite H4. constructor.
+  - apply own_top.
+Qed.
+
+Lemma fold_update_keys : forall inners d, NoDup (map fst d) ->
+  NoDup (map fst (fold_left (fun d b => dict_update Nat.eqb d (b_sustain b)) inners d)).
+Proof.
+  induction inners as [|b inners IH]; intros d H; cbn [fold_left]; [exact H|]. apply IH. apply dict_update_keys. exact H.
+Qed.
+
+Lemma merge_fin : forall inners cs mode al nest bd, merge inners cs mode al nest = Ok bd -> fin bd.
+Proof.
+  intros inners cs mode al nest bd H. pose proof (merge_inv _ _ _ _ _ _ H) as [_ Htop].
+  unfold merge in H. destruct (_ && _); [discriminate|]. inv_bind H as bd0 Hf H.
+  apply finish_fin in Hf. cbn in Hf. destruct Hf as [H1 [H2 [H3 [H4 _]]]].
+  inversion H; subst; cbn in *. constructor; cbn; try assumption.
+  rewrite H4. apply fold_update_keys. constructor.
+Qed.
+
+Lemma doc_block_fin : forall p b bd, doc_block p b = Ok bd -> fin bd.
+Proof.
+  intros p b bd H. destruct b; cbn [doc_block] in H.
+  - eapply doc_cross_fin; eauto.
+  - eapply doc_cross_fin; eauto.
+  - inv_bind H as inner Hi H. eapply merge_fin; eauto.
+  - inv_bind H as inners Hi H. inv_bind H as al' Hal H. eapply merge_fin; eauto.
+  - inv_bind H as outer Ho H. inv_bind H as inner Hi H. destruct (existsb _ _); [discriminate|]. eapply merge_fin; eauto.
+Qed.
+
+(** *** one repetition window over the whole block is the block's own scope *)
+Lemma rep_step_id : forall base T, (forall w, In w base -> wf_window T w) ->
+  flat_map (fun ab : nat * nat => if 0 + fst ab <? Nat.min (0 + snd ab) T then [(0 + fst ab, Nat.min (0 + snd ab) T)] else [])
+           base = base.
+Proof.
+  induction base as [|[a b] base IH]; intros T Hw; [reflexivity|]. cbn [flat_map fst snd].
+  destruct (Hw (a, b) (or_introl eq_refl)) as [Hab HbT]. cbn [fst snd] in Hab, HbT.
+  rewrite !Nat.add_0_l. rewrite (Nat.min_l b T HbT). replace (a <? b) with true by (symmetry; apply Nat.ltb_lt; lia).
+  cbn [app]. f_equal. apply IH. intros w Hin. apply Hw. right. exact Hin.
+Qed.
+
+Lemma rep_windows_id : forall base T P, 0 < T -> P < T -> (forall w, In w base -> wf_window T w) ->
+  rep_windows (S T) base (T - P) T P 0 = base.
+Proof.
+  intros base T P HT HP Hw. cbn [rep_windows]. replace (0 <? T - P) with true by (symmetry; apply Nat.ltb_lt; lia).
+  rewrite (rep_step_id base T Hw). destruct T as [|T']; [lia|]. cbn [rep_windows].
+  rewrite Nat.add_0_l, Nat.ltb_irrefl. apply app_nil_r.
+Qed.
+
+Lemma scope_windows_rep : forall sc T P, top_scope sc -> 0 < T -> P < T ->
+  scope_windows (ScRep sc T P 0) T = scope_windows sc T.
+Proof.
+  intros sc T P Ht HT HP. cbn [scope_windows]. destruct (scope_windows sc T) as [[base scale]|e|w] eqn:E; cbn [bind]; try reflexivity.
+  replace (T <=? P) with false by (symmetry; apply Nat.leb_gt; lia).
+  rewrite rep_windows_id; [reflexivity|assumption|assumption|]. eapply scope_windows_good; eauto.
+Qed.
+
+Definition with_constraints (bd : blockdoc) (cs : list (pcons * scope)) : blockdoc :=
+  {| b_design := b_design bd; b_crossings := b_crossings bd; b_T := b_T bd; b_P := b_P bd;
+     b_constraints := cs; b_min_trials := b_min_trials bd; b_alignment := b_alignment bd;
+     b_sustain := b_sustain bd; b_rcc := b_rcc bd |}.
+
+Definition rescope (bd : blockdoc) : list (pcons * scope) :=
+  map (fun csc => (fst csc, ScRep (snd csc) (b_T bd) (b_P bd) 0)) (b_constraints bd).
+
+Lemma mapM_map : forall {A B C} (f : B -> res C) (g : A -> B) l, mapM f (map g l) = mapM (fun x => f (g x)) l.
+Proof. intros A B C f g l. induction l as [|x l IH]; [reflexivity|]. cbn. rewrite IH. reflexivity. Qed.
+
+(** [sem_of_block] does not see the difference *)
+Lemma sem_of_block_rescope : forall p bd ds,
+  fin bd -> 0 < b_T bd -> b_P bd < b_T bd ->
+  sem_of_block p bd = Ok ds ->
+  exists ds', sem_of_block p (with_constraints bd (rescope bd)) = Ok ds' /\
+              ds_sem ds' = ds_sem ds /\ ds_forder ds' = ds_forder ds /\ ds_T ds' = ds_T ds /\ ds_unsat ds' = ds_unsat ds.
+Proof.
+  intros p bd ds Hfin HT HP H. unfold sem_of_block in H |- *.
+  change (b_design (with_constraints bd (rescope bd))) with (b_design bd).
+  change (b_T (with_constraints bd (rescope bd))) with (b_T bd).
+  change (b_crossings (with_constraints bd (rescope bd))) with (b_crossings bd).
+  change (b_constraints (with_constraints bd (rescope bd))) with (rescope bd).
+  inv_bind H as kinds Hk H. rewrite Hk. cbn [bind]. destruct (negb _); [discriminate|].
+  inv_bind H as depths Hd H. rewrite Hd. cbn [bind]. set (forder := map fst (sort_by _ depths)) in *.
+  inv_bind H as factors Hf H. change (sem_factor p (with_constraints bd (rescope bd))) with (sem_factor p bd).
+  rewrite Hf. cbn [bind].
+  inv_bind H as crossings Hx H. change (sem_crossing p (with_constraints bd (rescope bd))) with (sem_crossing p bd).
+  rewrite Hx. cbn [bind].
+  inv_bind H as constraints Hc H.
+  assert (Hc' : mapM (fun csc : pcons * scope =>
+                        cs <- expand_constraint p (fst csc) ;;
+                        ks <- mapM (fun c => sem_constraint p (with_constraints bd (rescope bd)) forder
+                                                            (list_max (map (fun c0 => x_P c0 * x_su c0) (b_crossings bd)))
+                                                            (b_T bd) c (snd csc)) cs ;;
+                        Ok (List.concat ks)) (rescope bd) = Ok constraints).
+  { rewrite <- Hc. unfold rescope. rewrite mapM_map. apply mapM_ext. intros csc Hin. cbn [fst snd].
+    destruct (expand_constraint p (fst csc)) as [cs|e|w]; cbn [bind]; try reflexivity.
+    f_equal. apply mapM_ext. intros c _.
+    change (sem_constraint p (with_constraints bd (rescope bd))) with (sem_constraint p bd).
+    unfold sem_constraint. rewrite scope_windows_rep; [reflexivity| |assumption|assumption].
+    pose proof (fin_top _ Hfin) as Htop. rewrite Forall_forall in Htop. apply (Htop csc Hin). }
+  rewrite Hc'. cbn [bind]. inversion H; subst. eexists. split; [reflexivity|]. cbn. repeat split; reflexivity.
+Qed.
+
+Lemma alignment_eqb_refl : forall a, alignment_eqb a a = true.
+Proof. destruct a; reflexivity. Qed.
+
+(** the [Merge] of one block, in REPEAT mode and with the block's own alignment *)
+Lemma merge_single : forall inner, fin inner -> b_alignment inner <> PostPreamble -> NoDup (b_design inner) ->
+  merge [inner] [] DRepeat (b_alignment inner) false = Ok (with_constraints inner (rescope inner)).
+Proof.
+  intros inner [HT HP Hep Hk Htop] Hal Hnd. destruct inner as [d cs T P k m al su rcc].
+  cbn [b_design b_crossings b_T b_P b_constraints b_min_trials b_alignment b_sustain b_rcc] in *.
+  unfold merge, finish, with_constraints, rescope. cbv zeta.
+  cbn [b_design b_crossings b_T b_P b_constraints b_min_trials b_alignment b_sustain b_rcc
+       forallb negb andb flat_map fold_left map app min_trials_of own_constraints filter].
+  rewrite alignment_eqb_refl. cbn [negb andb]. rewrite !app_nil_r.
+  fold (ep_check al cs). rewrite Hep. cbn [bind].
+  cbn [b_design b_crossings b_T b_P b_constraints b_min_trials b_alignment b_sustain b_rcc].
+  f_equal. f_equal.
+  - apply (add_new_fresh d []). exact Hnd.
+  - rewrite HT. cbn [list_max fold_right]. rewrite Nat.max_0_r. reflexivity.
+  - rewrite HP. reflexivity.
+  - destruct al; try congruence; rewrite !app_nil_r; reflexivity.
+  - cbn [list_max fold_right]. apply Nat.max_0_r.
+  - apply (dict_update_fresh su []). exact Hk.
+  - apply andb_true_r.
+Qed.
+
+Lemma preamble_lt_trials : forall p bd ds, fin bd -> b_alignment bd <> PostPreamble ->
+  sem_of_block p bd = Ok ds -> b_P bd < b_T bd.
+Proof.
+  intros p bd ds [HT HP _ _ _] Hal H. rewrite HT, HP. destruct (b_crossings bd) as [|c0 cs] eqn:Ecs.
+  - cbn [first_P]. apply finish_T_pos.
+  - unfold sem_of_block in H. inv_bind H as kinds Hk H. destruct (negb _); [discriminate|].
+    inv_bind H as depths Hd H. inv_bind H as factors Hf H. inv_bind H as crossings Hx H.
+    rewrite Ecs in Hx. cbn [mapM] in Hx. inv_bind Hx as y Hy Hx. unfold sem_crossing in Hy.
+    destruct (_ =? 0) eqn:E; [discriminate|]. apply Nat.eqb_neq in E.
+    assert (HS : 0 < x_S c0 * x_su c0) by nia.
+    unfold finish_T, first_P. destruct (b_alignment bd); try congruence; cbn [map list_max fold_right]; nia.
+Qed.
+
+(** Merge([b]) (REPEAT mode, b's own alignment) and Repeat(b, []) have the semantic normal form
+    of b itself, whenever b has one (b not aligned POST_PREAMBLE - then the first crossing's
+    preamble may be shorter than the longest and the block's constraints would start later;
+    design without repeated factors) *)
+Theorem merge_one_same : forall p b bd ds,
+  doc_block p b = Ok bd -> sem_of_block p bd = Ok ds ->
+  b_alignment bd <> PostPreamble -> NoDup (b_design bd) ->
+  exists ds', doc_sem_block p (PMerge [b] [] DRepeat None) = Ok ds' /\
+              ds_sem ds' = ds_sem ds /\ ds_forder ds' = ds_forder ds /\ ds_T ds' = ds_T ds /\ ds_unsat ds' = ds_unsat ds.
+Proof.
+  intros p b bd ds Hbd Hds Hal Hnd. pose proof (doc_block_fin _ _ _ Hbd) as Hfin.
+  destruct (doc_block_inv _ _ _ Hbd) as [HT _].
+  unfold doc_sem_block. cbn [doc_block]. rewrite Hbd. cbn [bind]. rewrite (merge_single bd Hfin Hal Hnd). cbn [bind].
+  apply sem_of_block_rescope; try assumption. eapply preamble_lt_trials; eauto.
+Qed.
+
+Theorem repeat_nil_same : forall p b bd ds,
+  doc_block p b = Ok bd -> sem_of_block p bd = Ok ds ->
+  b_alignment bd = EqualPreamble -> NoDup (b_design bd) ->
+  exists ds', doc_sem_block p (PRepeat b []) = Ok ds' /\
+              ds_sem ds' = ds_sem ds /\ ds_forder ds' = ds_forder ds /\ ds_T ds' = ds_T ds /\ ds_unsat ds' = ds_unsat ds.
+Proof.
+  intros p b bd ds Hbd Hds Hal Hnd. pose proof (doc_block_fin _ _ _ Hbd) as Hfin.
+  destruct (doc_block_inv _ _ _ Hbd) as [HT _].
+  assert (Hal' : b_alignment bd <> PostPreamble) by (rewrite Hal; discriminate).
+  unfold doc_sem_block. cbn [doc_block]. rewrite Hbd. cbn [bind]. rewrite <- Hal. rewrite (merge_single bd Hfin Hal' Hnd). cbn [bind].
+  apply sem_of_block_rescope; try assumption. eapply preamble_lt_trials; eauto.
+Qed.
+
+(** ... hence the same valid sequences *)
+Corollary repeat_nil_valid : forall p b ds,
+  doc_sem_block p b = Ok ds -> b_alignment (ds_block ds) = EqualPreamble -> NoDup (b_design (ds_block ds)) ->
+  exists ds', doc_sem_block p (PRepeat b []) = Ok ds' /\ forall s, valid_b (ds_sem ds') s = valid_b (ds_sem ds) s.
+Proof.
+  intros p b ds H Hal Hnd. unfold doc_sem_block in H. inv_bind H as bd Hbd H.
+  assert (E : ds_block ds = bd).
+  { unfold sem_of_block in H. inv_bind H as kinds Hk H. destruct (negb _); [discriminate|].
+    inv_bind H as depths Hd H. inv_bind H as factors Hf H. inv_bind H as crossings Hx H. inv_bind H as constraints Hc H.
+    inversion H; reflexivity. }
+  rewrite E in Hal, Hnd. destruct (repeat_nil_same p b bd ds Hbd H Hal Hnd) as [ds' [H1 [H2 _]]].
+  exists ds'. split; [exact H1|]. intro s. rewrite H2. reflexivity.
+Qed.
